@@ -238,6 +238,7 @@ func c06AggRetry(r *vx.Rand) {
 	}
 	attempts := 2 + r.Intn(2)
 	lastFlags := ""
+	sanity := false
 	var prev [][]byte
 	for at := 0; at < attempts; at++ {
 		if at > 0 {
@@ -315,12 +316,20 @@ func c06AggRetry(r *vx.Rand) {
 			}
 			if res != "ok" {
 				failed = true
+				if res == "other" {
+					// LockKeys' own sanity error ("should be unreachable": a retry with a for-update ts below the conflict ts).
+					// NOTE (reported): the call returns before un-setting the primary it has just selected; if the caller goes on
+					// with the transaction, Done releases that key as unnecessary, later statements lock under a primary that is
+					// not locked, and Commit answers success with nothing committed.  The scenarios END the transaction after
+					// this error (stage end + commit of what there is / rollback), they do not lock or write any more.
+					sanity = true
+				}
 				rec.Count("c06:agg:lock-failed:" + res)
 				break
 			}
 		}
 		prev = ks
-		if failed && r.Chance(50) {
+		if sanity || (failed && r.Chance(50)) {
 			break
 		}
 	}
@@ -343,7 +352,7 @@ func c06AggRetry(r *vx.Rand) {
 		if commit {
 			for i, k := range prev {
 				// (still inside the stage = the direct end: nothing more is locked, Commit leaves the stage)
-				if !inAgg() && r.Chance(60) && a.Lock([][]byte{k}, "-") == "ok" {
+				if !sanity && !inAgg() && r.Chance(60) && a.Lock([][]byte{k}, "-") == "ok" {
 					a.Set(k, val(0, 1, i))
 				}
 			}
